@@ -25,6 +25,10 @@ def setup_env():
     if REPO in sys.path:
         sys.path.remove(REPO)
     sys.path.insert(0, REPO)
+    # one copy of the package per process: a second call must hand back the same module objects (exception classes are compared by identity)
+    loaded = sys.modules.get("machupX")
+    if loaded is not None and os.path.realpath(os.path.dirname(getattr(loaded, "__file__", "") or "")).startswith(os.path.realpath(REPO)):
+        return loaded
     for m in list(sys.modules):
         if m == "machupX" or m.startswith("machupX."):
             del sys.modules[m]
